@@ -3,6 +3,7 @@
 //! (linked in-process from /repo with the verification hooks enabled) and writes a JSON report.
 mod c01;
 mod c03;
+mod c08;
 mod c10;
 mod corpus;
 mod ctx;
@@ -29,6 +30,10 @@ fn main() {
         std::process::exit(2);
     }
     let prop = args[1].to_lowercase();
+    if prop == "c08debug" {
+        c08::debug_case(&args[2]);
+        return;
+    }
     let seed: u64 = arg(&args, "--seed", "20260930").parse().expect("--seed");
     let tier = arg(&args, "--tier", "quick");
     let model_path = arg(&args, "--model", "/verif/lean/.lake/build/bin/mrmodel");
@@ -49,6 +54,7 @@ fn main() {
         "c10" => c10::run(&mut ctx),
         "c01" => c01::run(&mut ctx),
         "c03" | "c09" => c03::run(&mut ctx),
+        "c08" | "c15" | "c20" => c08::run(&mut ctx),
         other => {
             eprintln!("unknown property {}", other);
             std::process::exit(2);
